@@ -129,11 +129,24 @@ do_codec(char * l)
 			if (sock_addr_serialize(sa, &ser, &serlen) == 0) {
 				r2 = sock_addr_deserialize(ser, serlen);
 				vt_bool("ser_rt", r2 != NULL && sock_addr_cmp(sa, r2) == 0);
+				/* the copy is used like the original: printed (and, below, compared after printing) */
+				if (r2 != NULL && (pp = sock_addr_prettyprint(r2)) != NULL) { vt_hex("pp_ser", pp, strlen(pp)); free(pp); }
 				sock_addr_free(r2);
 				free(ser);
 			}
 			d = sock_addr_dup(sa);
 			vt_bool("dup_rt", d != NULL && sock_addr_cmp(sa, d) == 0);
+			if (d != NULL && (pp = sock_addr_prettyprint(d)) != NULL) { vt_hex("pp_dup", pp, strlen(pp)); free(pp); }
+			if (d != NULL) {
+				/* a copy of the copy, and the copy as a member of a duplicated list */
+				struct sock_addr * lst[2], ** l2;
+				lst[0] = d; lst[1] = NULL;
+				if ((l2 = sock_addr_duplist(lst)) != NULL) {
+					if (l2[0] != NULL && (pp = sock_addr_prettyprint(l2[0])) != NULL) { vt_hex("pp_dup2", pp, strlen(pp)); free(pp); }
+					vt_bool("dup2_rt", l2[0] != NULL && l2[1] == NULL && sock_addr_cmp(sa, l2[0]) == 0);
+					sock_addr_freelist(l2);
+				}
+			}
 			sock_addr_free(d);
 			/* print and resolve back */
 			pp = sock_addr_prettyprint(sa);
